@@ -373,6 +373,18 @@ func c04Bad(spec cfg.Spec, src []byte) []c04URL {
 }
 
 func replayC04(c *core.Ctx, v *core.Violation) (bool, string) {
+	if steps := arenaFromScript(v.Script); steps != nil {
+		outs := arenaRun(specOf(v.Config).Build(), &srcArena{}, steps)
+		for i, o := range outs {
+			urls, _ := c04Extract(o)
+			for _, u := range urls {
+				if u.Scheme != "" {
+					return true, fmt.Sprintf("step %d of the recycled-buffer history: <%s %s=%q> normalises to %q", i+1, u.Elem, u.Attr, u.Value, u.Norm)
+				}
+			}
+		}
+		return false, "no dangerous URL in any output of the history"
+	}
 	bad := c04Bad(specOf(v.Config), v.Input)
 	if len(bad) > 0 {
 		return true, fmt.Sprintf("<%s %s=%q> normalises to %q", bad[0].Elem, bad[0].Attr, bad[0].Value, bad[0].Norm)
@@ -422,6 +434,7 @@ func runC04(c *core.Ctx) {
 			c.Sample(map[string]any{"construct": con.Name, "input": q([]byte(src)), "devices": sp.Devices, "config": spec.Name()})
 		}
 	}
+	c04Arena(c, pool, safe)
 	// soup / mutants with scheme tokens
 	n2 := c.PerShard(c.N(100000, 6000000))
 	for i := 0; i < n2; i++ {
@@ -434,5 +447,73 @@ func runC04(c *core.Ctx) {
 			src = append(src[:p:p], append([]byte(ins), src[p:]...)...)
 		}
 		c04Check(c, pool, safe[r.Intn(len(safe))], src, "", nil)
+	}
+}
+
+// c04Arena: a caller that recycles its read buffer. A document with a harmless URL is converted from the buffer, the buffer
+// is overwritten with the same document carrying a dangerous URL of the same length at the same offsets (blanked, as it
+// must be), and then the first document is converted again - from a slice of its own and from the buffer. Whatever the
+// renderer remembered about the first destination now reads the dangerous bytes. Every output is judged by the same oracle.
+var c04Harmless = []string{"http://a.b/index.html", "https://example.com/a/b/c", "/rel/path/to/some/file.x", "mailto:someone@example.org", "ftp://f.g/pub/readme.txt", "http://www.example.com/", "irc://chat.example/room-1"}
+
+func c04Arena(c *core.Ctx, pool *cfg.Pool, safe []cfg.Spec) {
+	r := c.Rng
+	a := &srcArena{}
+	n := c.PerShard(c.N(12000, 600000))
+	for i := 0; i < n; i++ {
+		con := c04Constructs[r.Intn(len(c04Constructs))]
+		if con.Name == "linkify" && r.Intn(2) == 0 {
+			continue
+		}
+		h := c04Harmless[r.Intn(len(c04Harmless))]
+		scheme := c04Schemes[r.Intn(len(c04Schemes))]
+		rests := c04Rests[scheme]
+		d := scheme + rests[r.Intn(len(rests))]
+		if strings.ContainsAny(d, " <>") {
+			d = scheme + "alert(1)"
+		}
+		if r.Intn(3) == 0 {
+			d = strings.ToUpper(scheme[:1]) + scheme[1:] + "x"
+		}
+		d = padTo(d, len(h), '/')
+		if len(d) < len(scheme) {
+			continue
+		}
+		docA := []byte(strings.ReplaceAll(con.Tmpl, "%U", h))
+		docB := []byte(strings.ReplaceAll(con.Tmpl, "%U", d))
+		spec := safe[r.Intn(len(safe))]
+		name := spec.Name()
+		md := pool.Get(spec)
+		steps := []arenaStep{{Doc: docA}, {Doc: docB}, {Doc: docA, Fresh: true}, {Doc: docA}}
+		if r.Intn(2) == 0 {
+			// the dangerous twin first: what was blanked must not stick to the harmless one either (that is C10's business) and
+			// what is remembered of the harmless one must not come back for the dangerous one
+			steps = []arenaStep{{Doc: docB}, {Doc: docA}, {Doc: docB, Fresh: true}, {Doc: docB}}
+		}
+		c.Begin(name, docA)
+		outs := arenaRun(md, a, steps)
+		c.End()
+		c.Evals(len(steps))
+		c.Count("recycled_buffer_histories", 1)
+		c.Observe("configs", name)
+		for si, o := range outs {
+			if o == nil {
+				c.Count("conversion_failed_left_to_C01", 1)
+				continue
+			}
+			urls, _ := c04Extract(o)
+			c.Count("urls_extracted", int64(len(urls)))
+			for _, u := range urls {
+				if u.Value == "" {
+					c.Count("urls_blanked", 1)
+				}
+				if u.Scheme == "" {
+					continue
+				}
+				c.Violation(&core.Violation{Class: "dangerous-url-emitted", Locus: u.Elem + "@" + u.Attr + ":" + u.Scheme + ":" + con.Name + ":recycled-source-buffer", Config: name,
+					Input: steps[si].Doc, Script: arenaScript(steps),
+					Detail: fmt.Sprintf("one instance, the caller reuses its source buffer between conversions:\n%sstep %d gives <%s %s=%q>, which normalises to %q\noutput: %s", arenaDescribe(steps), si+1, u.Elem, u.Attr, u.Value, u.Norm, q(o))})
+			}
+		}
 	}
 }
